@@ -352,11 +352,18 @@ func (c *c05) Plan(seed uint64, tier string, worker, workers, idx int) *Plan {
 			mid,
 			{Kind: "setlimit", Limit: pair.L},
 		}
+		if r.Chance(1, 2) {
+			// and time passes (or the wall clock is set back) before the next call
+			inter = append(inter, Op{Kind: "ambient", Name: clockMenu[r.Intn(len(clockMenu))]})
+		}
 		ops = append(ops[:at:at], append(inter, ops[at:]...)...)
 	}
 	p.Tasks = [][]Op{ops}
 	return p
 }
+
+// clockMenu: jumps of the simulated clock, in seconds (see the time shim).
+var clockMenu = []string{"clock:1", "clock:61", "clock:121", "clock:601", "clock:3601", "clock:86401", "clock:2678401", "clock:-30", "clock:-7200"}
 
 const octet = "application/octet-stream|"
 
@@ -396,6 +403,9 @@ func (c *c05) Check(rr *RunResult, st *Stats) []Failure {
 		if op.Kind == "setlimit" {
 			limit = op.Limit
 			continue
+		}
+		if op.Kind == "ambient" {
+			st.Fault("clock_jump")
 		}
 		if op.Kind != "reader" && op.Kind != "file" {
 			continue
